@@ -511,6 +511,14 @@ class Executor(Exec):
             return self.branch(c.mem[t], st,
                                lambda s: k(SNone(), s.put(recv.ref, SetCell(c.elem, z3.Store(c.mem, t, False)))),
                                lambda s: self.raise_("KeyError", s))
+        if name == "pop" and not args:
+            # an arbitrary element (KeyError on the empty set)
+            x = z3.Const("x!sp", S.sort_of(c.elem))
+            def some(s2):
+                v, s3 = fresh_value(s2, c.elem, "popped")
+                s3 = s3.assume(c.mem[v.t])
+                return k(v, s3.put(recv.ref, SetCell(c.elem, z3.Store(c.mem, v.t, False))))
+            return self.branch(z3.Exists([x], c.mem[x]), st, some, lambda s2: self.raise_("KeyError", s2))
         if name == "update":
             o = self.to_setv(args[0], st)
             x = z3.Const("x!su", S.sort_of(c.elem))
